@@ -499,6 +499,38 @@ func runHistory(id int, h History, enc *json.Encoder) {
 			return
 		}
 		o.Post = forest(doc)
+		if id%3 == 2 && k%2 == 0 {
+			// sparse reading: in every third history every other step looks at ONE view only (the children of each family),
+			// so that caches which are validated as a side effect of reading other views stay as they are across edits
+			fams := doc.Families()
+			liveChil := make([][]string, len(fams))
+			for i, f := range fams {
+				liveChil[i] = []string{}
+				for _, c := range f.Children() {
+					liveChil[i] = append(liveChil[i], c.Value())
+				}
+			}
+			text := doc.String()
+			fresh, err := gedcom.NewDocumentFromString(text)
+			if err == nil {
+				o.TextOK = sameJSON(forest(fresh), o.Post)
+				o.Fresh, o.FreshF = readViews(fresh, uni)
+				var live Views
+				b, _ := json.Marshal(o.Fresh)
+				json.Unmarshal(b, &live)
+				if len(live.Fam) == len(fams) {
+					for i := range fams {
+						live.Fam[i].Chil = liveChil[i]
+					}
+				}
+				o.Live, o.LiveF = live, o.FreshF
+				o.Read = "none"
+				o.ReadOK["text"], o.ReadOK["forest"], o.ReadOK["views"] = true, true, true
+				enc.Encode(o)
+				pre = o.Post
+				continue
+			}
+		}
 		// live views first (a decode resets the global children-by-tag cache), twice: the
 		// children-by-tag cache is only filled by the second lookup of a key
 		readViews(doc, uni)
